@@ -9,6 +9,14 @@ Setting of `Proofs/CopyDisjoint.lean`: only the declared extents are mapped / re
 namespace SafeC
 open Gen
 
+/-- with `slen` inside the limit `wcsncpy_s` is the generic `strncpyG` at the wide limit -/
+theorem wcsncpy_eq_G (cfg : Cfg) (dest dmax src slen : Nat) (h : slen ≤ RSIZE_MAX_WSTR) :
+    wcsncpy_s cfg dest dmax src slen none none = strncpyG RSIZE_MAX_WSTR cfg dest dmax src slen none none := by
+  have h' : ¬ slen > RSIZE_MAX_WSTR := by omega
+  unfold wcsncpy_s strncpyG chkDmaxClearW chkDmaxClear chkDmaxClearG chkSlenMaxClear failS
+  simp only [h', if_false]
+  rfl
+
 /-- wcsncat_s, object sizes unknown, `0 < slen ≤ RSIZE_MAX_WSTR`: dest holds a string of length `dl`,
 `m` = number of source characters appended (the source string is shorter than slen and `m` its length,
 or `m = slen`) -/
